@@ -152,7 +152,7 @@ def setting_codes(txt):
 def is_group(txt):
     """one well-formed SGR parameter group: a single decimal code other than a lone 38/48/58,
     or a complete extended-colour group with values 0..255 (digits only, no padding)"""
-    items = txt.split(';')
+    items = [it.strip(BLANKS) for it in txt.split(';')]     # blank padding of a number does not change its reading
     if not all(it.isascii() and it.isdigit() for it in items):
         return False
     cs = [int(it) for it in items]
